@@ -163,7 +163,7 @@ func summariseRenders(g *ssa.Function, depth int) *renderSummary {
 			return
 		}
 		h := cc.StaticCallee()
-		if h == nil || h.Pkg == nil || h.Pkg.Pkg.Path() != twigPath || h == g {
+		if h == nil || !isTwigFn(h) || h == g {
 			return
 		}
 		hs := summariseRenders(h, depth+1)
@@ -201,7 +201,7 @@ func rendersOf(in ssa.Instruction) []fieldRef {
 		return []fieldRef{{t, f}}
 	}
 	h := cc.StaticCallee()
-	if h == nil || h.Pkg == nil || h.Pkg.Pkg.Path() != twigPath {
+	if h == nil || !isTwigFn(h) {
 		return nil
 	}
 	// Render methods of nodes are the renderers themselves, not helpers of the caller
@@ -1310,7 +1310,7 @@ func checkLookupCoherence(w *World, r *Report) {
 						}
 					}
 				case *ssa.Call:
-					if g := x.Call.StaticCallee(); g != nil && g.Pkg != nil && g.Pkg.Pkg.Path() == twigPath && visit(g, depth+1) {
+					if g := x.Call.StaticCallee(); g != nil && isTwigFn(g) && visit(g, depth+1) {
 						found = true
 					}
 				}
